@@ -32,7 +32,7 @@ pub fn plan() -> Plan {
     let profiles = vec![p, single];
     Plan {
         profiles,
-        directed: vec![],
+        directed: vec![("never-collecting-client", |h| h.never_collecting_client(260))],
         quick_histories: 2000,
         thorough_histories: 320_000,
         s5: Some((2, 30, s4common::s5_default(true, 0))),
